@@ -30,7 +30,12 @@ type run struct {
 }
 
 // uhex: the user name a callback sees, hex-encoded as on the op line
-func uhex(conn ssh.ConnMetadata) string { return hx.Hex([]byte(conn.User())) }
+func uhex(conn ssh.ConnMetadata) string {
+	if string(conn.SessionID()) != string(SessionID) {
+		return "?sid"
+	}
+	return hx.Hex([]byte(conn.User()))
+}
 
 func (x *run) ev(format string, a ...any) { x.evs = append(x.evs, fmt.Sprintf(format, a...)) }
 
@@ -73,6 +78,12 @@ func (x *run) callbacks(bits string, gen int) ssh.ServerAuthCallbacks {
 		c.KeyboardInteractiveCallback = func(conn ssh.ConnMetadata, ch ssh.KeyboardInteractiveChallenge) (*ssh.Permissions, error) {
 			x.ev("cb.kbd(%d,%s)", gen, uhex(conn))
 			for _, q := range x.cur().KbdRounds {
+				if q == 99 { // questions and echos of different length: Challenge fails before any I/O
+					if _, err := ch("name", "instruction", []string{"q?"}, nil); err != nil {
+						return nil, err
+					}
+					continue
+				}
 				qs := make([]string, q)
 				for i := range qs {
 					qs[i] = "q?"
@@ -143,6 +154,12 @@ func (x *run) outcome(o string) (*ssh.Permissions, error) {
 		return nil, &ssh.BannerError{Err: errors.New("rejected"), Message: ""}
 	case o == "B1":
 		return nil, &ssh.BannerError{Err: errors.New("rejected"), Message: "banner from callback"}
+	case o == "B2": // no inner error
+		return nil, &ssh.BannerError{Message: "banner from callback"}
+	case o == "BP": // wrapping a PartialSuccessError: still a plain failure (the type assertion does not unwrap)
+		return nil, &ssh.BannerError{Err: &ssh.PartialSuccessError{Next: x.callbacks("111", x.idx)}, Message: "banner from callback"}
+	case o == "BW": // itself wrapped: errors.As finds it
+		return nil, fmt.Errorf("wrapped: %w", &ssh.BannerError{Err: errors.New("rejected"), Message: "banner from callback"})
 	case o[0] == 'A':
 		var id int
 		fmt.Sscan(o[1:], &id)
@@ -322,6 +339,17 @@ func Exec(line string) string {
 	case "m":
 		cfg.BannerCallback = func(conn ssh.ConnMetadata) string { x.ev("cb.ban(%s)", uhex(conn)); return "hello" }
 	}
+	switch o.Str("pre") {
+	case "c":
+		cfg.PreAuthConnCallback = func(c ssh.ServerPreAuthConn) { x.ev("cb.pre") }
+	case "b":
+		cfg.PreAuthConnCallback = func(c ssh.ServerPreAuthConn) {
+			x.ev("cb.pre")
+			if err := c.SendAuthBanner("pre-auth banner"); err != nil {
+				x.ev("?prebanner")
+			}
+		}
+	}
 	cfg.PublicKeyAuthAlgorithms = o.List("algs")
 	cfg.AuthLogCallback = func(conn ssh.ConnMetadata, method string, err error) {
 		res := "fail"
@@ -349,7 +377,13 @@ func Exec(line string) string {
 	case err == nil:
 		res = "ok:" + x.permID(perms)
 	case errors.As(err, &sae):
-		res = "autherr"
+		k := 0
+		for _, e := range sae.Errors {
+			if e == ssh.ErrNoAuth {
+				k++
+			}
+		}
+		res = fmt.Sprintf("autherr:%d:%d", len(sae.Errors), k)
 	default:
 		res = "err"
 	}
